@@ -43,7 +43,9 @@ pub struct StaticSoundData {
 	this [`StaticSoundData`] only contained the specified portion of
 	audio.
 
-	A slice whose end is before its start is empty.
+	A slice that reaches past the end of the audio only covers the audio
+	that exists (a slice that starts past the end of the audio is empty),
+	and a slice whose end is before its start is empty.
 	*/
 	pub slice: Option<(usize, usize)>,
 }
@@ -426,8 +428,9 @@ impl Debug for FramesDebug {
 
 pub(crate) fn num_frames(frames: &[Frame], slice: Option<(usize, usize)>) -> usize {
 	if let Some((start, end)) = slice {
-		// an inverted slice (end before start) is empty
-		end.saturating_sub(start)
+		// a slice that reaches past the end of the data is clamped to the data,
+		// and an inverted slice (end before start) is empty
+		end.min(frames.len()).saturating_sub(start)
 	} else {
 		frames.len()
 	}
@@ -441,6 +444,8 @@ pub(crate) fn frame_at_index(
 	if index >= num_frames(frames, slice) {
 		return None;
 	}
+	// index < num_frames, so index + start is less than both the end of the slice
+	// and frames.len()
 	let start = slice.map(|(start, _)| start).unwrap_or_default();
 	Some(frames[index + start])
 }
